@@ -23,6 +23,7 @@ import (
 	proto "github.com/kubewharf/kubebrain-client/api/v2rpc"
 
 	"github.com/kubewharf/kubebrain/pkg/metrics"
+	"github.com/kubewharf/kubebrain/pkg/verifhook"
 )
 
 const (
@@ -60,6 +61,7 @@ func (w *WatcherHub) AddWatcher(ctx context.Context) (<-chan []*proto.Event, err
 
 // DeleteWatcher delete watcher
 func (w *WatcherHub) DeleteWatcher(sub chan []*proto.Event, lock bool) {
+	verifhook.Point("hub.deleteEntry", w, sub)
 	w.metricCli.EmitCounter("watcher_hub.delete_watcher", 1)
 	if lock {
 		w.Lock()
@@ -85,6 +87,7 @@ func (w *WatcherHub) Stream(input chan []*proto.Event) {
 				// drop slow consumer
 				klog.InfoS("drop slow consumer", "chan", sub, "bufSize", watchBuffer)
 				w.metricCli.EmitCounter("drop.slow.watcher", 1)
+				verifhook.Point("hub.slowBranch", w, sub)
 				go w.DeleteWatcher(sub, true)
 			}
 		}
